@@ -575,6 +575,10 @@ def trace(body, op_or_place, transparent=is_transparent, through_try=True, throu
         fields = [e for e in proj if e["k"] in ("field", "index", "constindex", "subslice")]
         if fields:
             wrappers = ("std::option::Option", "std::result::Result", "std::ops::ControlFlow")
+            if any(e["k"] == "field" and e.get("owner") in ("std::result::Result", "std::ops::ControlFlow") and e.get("variant") in ("Err", "Break")
+                   for e in fields):
+                leaves.append(Leaf("errpayload", None, pl, neg, via))      # the error side of a Result: not the success payload
+                return
             # payload of Option/Result/ControlFlow is the container (transparent wrappers)
             if all(e["k"] == "field" and e.get("owner") in wrappers for e in fields):
                 from_local(l, neg, via, d)
@@ -595,6 +599,12 @@ def trace(body, op_or_place, transparent=is_transparent, through_try=True, throu
                 leaves.append(Leaf("field", None, pl, neg, via))
                 from_local(l, neg, via, d)
                 return
+            # upvar read of an INLINED closure: the environment local was assigned `&closure` where closure = closure{ops}
+            if fields and fields[0].get("upvar") and not (l == 1 and body.kind == "Closure"):
+                cl_ops = _closure_ops(body, l)
+                if cl_ops is not None and fields[0]["i"] < len(cl_ops) and len(fields) == 1:
+                    from_op(cl_ops[fields[0]["i"]], neg, via, d - 1)
+                    return
             # upvar of a closure body: _1 is the closure environment
             if l == 1 and body.kind == "Closure" and any(e.get("upvar") for e in fields):
                 leaves.append(Leaf("upvar", None, pl, neg, via))
@@ -641,7 +651,9 @@ def trace(body, op_or_place, transparent=is_transparent, through_try=True, throu
                     leaves.append(Leaf("unop", bb, rv, neg, via))
                 elif k == "aggregate":
                     a = rv["agg"]
-                    if a["k"] == "adt" and a["adt"] in ("std::option::Option", "std::result::Result", "std::ops::ControlFlow") \
+                    if a["k"] == "adt" and a["adt"] in ("std::result::Result", "std::ops::ControlFlow") and a["variant"] in ("Err", "Break"):
+                        pass      # an error value: not a carrier of the success payload (text, handle, path)
+                    elif a["k"] == "adt" and a["adt"] in ("std::option::Option", "std::result::Result", "std::ops::ControlFlow") \
                             and len(rv["ops"]) == 1:
                         from_op(rv["ops"][0], neg, via, d - 1)      # Some(x) / Ok(x) wrap x
                     else:
@@ -654,8 +666,11 @@ def trace(body, op_or_place, transparent=is_transparent, through_try=True, throu
                     continue
                 found = True
                 nm = callee_name(t)
+                if is_from_residual(t):
+                    # `?` error exit: the value is only the residual error, never the success payload (no text, no handle)
+                    continue
                 if t["args"] and (transparent(t) or (through_try and is_try_branch(t))
-                                  or (through_decorators and (is_err_decorator(t) or is_from_residual(t)))):
+                                  or (through_decorators and is_err_decorator(t))):
                     from_op(t["args"][0], neg, via + (nm,), d - 1)
                 else:
                     leaves.append(Leaf("call", bb, t, neg, via))
@@ -680,6 +695,29 @@ def trace(body, op_or_place, transparent=is_transparent, through_try=True, throu
     else:
         from_place(op_or_place, False, (), depth)
     return leaves
+
+
+def _closure_ops(body, l, depth=6):
+    """operands captured by the closure aggregate that local `l` (a closure value or a reference to one) was built from"""
+    seen = set()
+    while depth > 0 and l not in seen:
+        seen.add(l)
+        depth -= 1
+        ds = [r for r in body.defs().get(l, []) if r[0] == "assign"]
+        if len(ds) != 1:
+            return None
+        rv = ds[0][3]["rv"]
+        if rv["k"] == "aggregate" and rv["agg"]["k"] == "closure":
+            return rv["ops"]
+        if rv["k"] in ("ref", "copyforderef"):
+            if any(e["k"] not in ("deref",) for e in rv["pl"]["p"]):
+                return None
+            l = rv["pl"]["l"]
+        elif rv["k"] == "use" and rv["op"]["k"] in ("copy", "move") and not [e for e in rv["op"]["pl"]["p"] if e["k"] != "deref"]:
+            l = rv["op"]["pl"]["l"]
+        else:
+            return None
+    return None
 
 
 # ------------------------------------------------------------------ conditions of switches
@@ -709,13 +747,13 @@ class Cond:
 def switch_cond(body, bb):
     t = body.term(bb)
     assert t["k"] == "switch"
-    leaves = trace(body, t["discr"])
+    leaves = trace(body, t["discr"], through_decorators=True)
     if len(leaves) >= 1 and all(l.kind == "discr" for l in leaves):
         rv = leaves[0].data
         adt = rv.get("adt")
         src = []
         for l in leaves:
-            src.extend(trace(body, l.data["pl"]))
+            src.extend(trace(body, l.data["pl"], through_decorators=True))
         return Cond("enum", bb, adt=adt, src=src, place=rv["pl"])
     kind = "bool" if t["dty"] == "bool" else "int"
     return Cond(kind, bb, src=leaves)
@@ -872,21 +910,91 @@ def tracked_flags(body):
     return cand
 
 
+TAG_ADTS = {"std::option::Option": {"None": 0, "Some": 1}, "std::result::Result": {"Ok": 0, "Err": 1},
+            "std::ops::ControlFlow": {"Continue": 0, "Break": 1}}
+# Try::branch maps the variant of its argument: Ok/Some -> Continue(0), Err/None -> Break(1)
+BRANCH_MAP = {("std::result::Result", 0): 0, ("std::result::Result", 1): 1, ("std::option::Option", 1): 0, ("std::option::Option", 0): 1}
+
+
+def tracked_tags(body):
+    """locals whose *variant* is statically known along a path: every whole-local definition is an Option/Result/ControlFlow aggregate,
+    a move/copy of such a local, or Try::branch of one; plus the integer locals holding `discriminant(<tracked>)`.
+    This is what makes an inlined helper `fn f() -> Result<..> { if c { return Err(..) } Ok(()) }` followed by `?` path-sensitive."""
+    if getattr(body, "_tags", None) is not None:
+        return body._tags
+    cand = {}
+    for l, decl in enumerate(body.locals):
+        if body.is_param(l):
+            continue
+        adt = decl.get("adt")
+        if adt in TAG_ADTS:
+            cand[l] = adt
+    changed = True
+    while changed:
+        changed = False
+        for l in list(cand):
+            ds = body.defs().get(l, [])
+            if not ds:
+                del cand[l]
+                changed = True
+                continue
+            for rec in ds:
+                ok = False
+                if rec[0] == "assign":
+                    rv = rec[3]["rv"]
+                    if rv["k"] == "aggregate" and rv["agg"]["k"] == "adt" and rv["agg"]["adt"] == cand[l]:
+                        ok = True
+                    elif rv["k"] == "use" and rv["op"]["k"] in ("copy", "move") and not rv["op"]["pl"]["p"] and rv["op"]["pl"]["l"] in cand:
+                        ok = True
+                elif rec[0] == "call" and not rec[2]["dest"]["p"] and is_try_branch(rec[2]) and rec[2]["args"]:
+                    p = op_place(rec[2]["args"][0])
+                    if p is not None and not p["p"] and p["l"] in cand:
+                        ok = True
+                if not ok:
+                    del cand[l]
+                    changed = True
+                    break
+    # integer locals that read the discriminant of a tracked local
+    discr = {}
+    for l in range(len(body.locals)):
+        ds = body.defs().get(l, [])
+        if len(ds) >= 1 and all(r[0] == "assign" and r[3]["rv"]["k"] == "discriminant" and not r[3]["rv"]["pl"]["p"]
+                                and r[3]["rv"]["pl"]["l"] in cand for r in ds):
+            discr[l] = True
+    body._tags = (cand, discr)
+    return body._tags
+
+
 def explore(body, cut=None, mark_edges=None, start_env=None):
-    """Flag-sensitive exploration from the entry.
+    """Flag- and tag-sensitive exploration from the entry.
     Returns (visited_blocks, marked_blocks, prev) where marked_blocks are the blocks visited on a
     path that took one of `mark_edges` before; prev maps state -> predecessor state (for witnesses).
-    """
+    Tracked per path: constant-only bool locals, and the variant of Option/Result/ControlFlow locals built from aggregates."""
     flags = sorted(tracked_flags(body))
+    tags, discr = tracked_tags(body)
+    tagl = sorted(tags)
+    discl = sorted(discr)
     idx = {l: i for i, l in enumerate(flags)}
-    env0 = tuple([None] * len(flags)) if start_env is None else start_env
+    tidx = {l: len(flags) + i for i, l in enumerate(tagl)}
+    didx = {l: len(flags) + len(tagl) + i for i, l in enumerate(discl)}
+    n = len(flags) + len(tagl) + len(discl)
+    env0 = tuple([None] * n) if start_env is None else start_env
     start = (0, env0, False)
     prev = {start: None}
     dq = deque([start])
     visited = set()
     marked = set()
+    budget = 400000
     while dq:
         st = dq.popleft()
+        budget -= 1
+        if budget < 0:
+            # state explosion: fall back to plain reachability (over-approximation: more blocks reachable, never fewer)
+            vis = body.reachable(0, cut=cut)
+            mk = set()
+            if mark_edges:
+                mk = body.reachable_from_edges(mark_edges, cut=cut)
+            return vis, mk, {}
         bb, env, mk = st
         visited.add(bb)
         if mk:
@@ -894,18 +1002,38 @@ def explore(body, cut=None, mark_edges=None, start_env=None):
         blk = body.blocks[bb]
         e = list(env)
         for s_ in blk["stmts"]:
-            if s_["k"] == "assign" and not s_["lhs"]["p"] and s_["lhs"]["l"] in idx:
-                op = s_["rv"]["op"]
+            if s_["k"] != "assign" or s_["lhs"]["p"]:
+                continue
+            l = s_["lhs"]["l"]
+            rv = s_["rv"]
+            if l in idx:
+                op = rv["op"]
                 if op["k"] == "const":
-                    e[idx[s_["lhs"]["l"]]] = (op_const(op) == "true")
+                    e[idx[l]] = (op_const(op) == "true")
                 else:
-                    e[idx[s_["lhs"]["l"]]] = e[idx[op["pl"]["l"]]]
+                    e[idx[l]] = e[idx[op["pl"]["l"]]]
+            elif l in tidx:
+                if rv["k"] == "aggregate":
+                    e[tidx[l]] = rv["agg"]["vi"]
+                else:
+                    e[tidx[l]] = e[tidx[rv["op"]["pl"]["l"]]]
+            elif l in didx:
+                e[didx[l]] = e[tidx[rv["pl"]["l"]]]
         t = blk["term"]
         known = None
+        if t["k"] == "call" and not t["dest"]["p"] and t["dest"]["l"] in tidx:
+            p = op_place(t["args"][0])
+            src = e[tidx[p["l"]]]
+            e[tidx[t["dest"]["l"]]] = BRANCH_MAP.get((tags[p["l"]], src)) if src is not None else None
         if t["k"] == "switch":
             op = t["discr"]
-            if op["k"] in ("copy", "move") and not op["pl"]["p"] and op["pl"]["l"] in idx:
-                known = e[idx[op["pl"]["l"]]]
+            if op["k"] in ("copy", "move") and not op["pl"]["p"]:
+                dl = op["pl"]["l"]
+                if dl in idx:
+                    known = e[idx[dl]]
+                    known = None if known is None else int(known)
+                elif dl in didx:
+                    known = e[didx[dl]]
         env2 = tuple(e)
         for i, (s, lab) in enumerate(body.raw_succs(bb)):
             if body.blocks[s]["cleanup"]:
@@ -913,7 +1041,7 @@ def explore(body, cut=None, mark_edges=None, start_env=None):
             if cut and (bb, i) in cut:
                 continue
             if known is not None and lab is not None:
-                val = int(known)
+                val = known
                 if lab[0] == "val" and lab[1] != val:
                     continue
                 if lab[0] == "otherwise" and val in lab[1]:
